@@ -7,6 +7,7 @@ import (
 
 	secp256k1 "gitlab.com/yawning/secp256k1-voi"
 	"gitlab.com/yawning/secp256k1-voi/secec"
+	"gitlab.com/yawning/secp256k1-voi/secec/bitcoin"
 
 	"verifharness/gen"
 	"verifharness/hk"
@@ -175,6 +176,16 @@ func runC05(r *mon.Run) {
 				}
 				if !bytes.Equal(k.PublicKey().Bytes(), oracle.EncodeUncompressed(want)) {
 					w.Fail("c05/PublicKey", fmt.Sprintf("NewPrivateKey(%x).PublicKey() = %x, expected %x", s, k.PublicKey().Bytes(), oracle.EncodeUncompressed(want)), "s", hb(s))
+				}
+				// the key object is then used the way other API calls use it (BIP-340 key
+				// derivation reads its scalar and point; the caller mutates handed-out values)
+				_ = bitcoin.NewSchnorrPrivateKeyFromECDSA(k)
+				hp := k.PublicKey().Point()
+				hp.Negate(hp)
+				hs := k.Scalar()
+				hs.Negate(hs)
+				if !bytes.Equal(k.PublicKey().Bytes(), oracle.EncodeUncompressed(want)) || !bytes.Equal(k.Scalar().Bytes(), b32(s)) {
+					w.Fail("c05/PublicKey:after-use", fmt.Sprintf("after deriving a BIP-340 key from it, the key for d = %x reports Bytes() %x and Scalar() %x", s, k.PublicKey().Bytes(), k.Scalar().Bytes()), "s", hb(s))
 				}
 				v = k.PublicKey().Point()
 				// the same through the scalar constructor; the caller then reuses its scalar
